@@ -742,3 +742,32 @@ def case_matmul_add_gemm_bias():
 
 
 CASES["matmul_add_gemm_bias"] = case_matmul_add_gemm_bias
+
+
+def case_reshape_matmul_reshape():
+    import onnx_ir as ir
+    from onnxscript.rewriter.rules.common import _broadcast_to_matmul as R
+
+    def c(name, arr):
+        return helper.make_node("Constant", [], [name], value=numpy_helper.from_array(np.asarray(arr, dtype=np.int64), name))
+    bad = 0
+    for sa0, sa, sb0, sb, sc in (([2], [2], [2, 2], [2, 2, 1], [2]), ([2], [1, 2], [2, 3], [3, 2, 1], [3]), ([2, 3], [2, 3], [3, 2], [3, 2], [2, 2])):
+        nodes = [c("sa", sa), c("sb", sb), c("sc", sc), helper.make_node("Reshape", ["a", "sa"], ["ra"]), helper.make_node("Reshape", ["b", "sb"], ["rb"]),
+                 helper.make_node("MatMul", ["ra", "rb"], ["m"]), helper.make_node("Reshape", ["m", "sc"], ["y"])]
+        g = helper.make_graph(nodes, "g", [vi("a", TensorProto.FLOAT, sa0), vi("b", TensorProto.FLOAT, sb0)], [vi("y", TensorProto.FLOAT, sc)])
+        m = helper.make_model(g, opset_imports=[helper.make_opsetid("", 18)], ir_version=9)
+        onnx.checker.check_model(m, full_check=True)
+        rng = np.random.default_rng(1)
+        f = {"a": rng.integers(1, 9, size=sa0).astype(np.float32), "b": rng.integers(1, 9, size=sb0).astype(np.float32)}
+        a0 = np.asarray(run(m, f)[0])
+        mm = ir.serde.deserialize_model(m)
+        n = R.rules.apply_to_model(mm)
+        b0 = np.asarray(run(ir.serde.serialize_model(mm), f)[0])
+        if a0.shape != b0.shape or not np.array_equal(a0, b0):
+            print(f"Reshape(MatMul(Reshape(a{sa0}, {sa}), Reshape(b{sb0}, {sb})), {sc}): rule applied {n}x -> {[x.op_type for x in mm.graph if x.op_type != 'Constant']}; "
+                  f"a={f['a'].tolist()} b={f['b'].tolist()}: original {a0.tolist()} rewritten {b0.tolist()}")
+            bad += 1
+    return bad
+
+
+CASES["reshape_matmul_reshape"] = case_reshape_matmul_reshape
